@@ -563,9 +563,23 @@ class Evaluator:
                     out_s += str(part.value)
                 elif isinstance(part, ast.FormattedValue):
                     v = self.eval(part.value, env)
-                    if not _plain(v) or part.format_spec is not None or part.conversion not in (-1, 115):
+                    if not (_plain(v) or isinstance(v, float)):
                         raise Undecided("f-string of abstract value")
-                    out_s += str(v)
+                    if isinstance(v, KInt):
+                        v = int(v)
+                    spec = ""
+                    if part.format_spec is not None:
+                        spec = self.eval(part.format_spec, env)  # itself a JoinedStr
+                    if part.conversion == 114:
+                        v = repr(v)
+                    elif part.conversion == 97:
+                        v = ascii(v)
+                    elif part.conversion == 115:
+                        v = str(v)
+                    try:
+                        out_s += format(v, spec)
+                    except (TypeError, ValueError) as ex:
+                        raise Raised(f"{type(ex).__name__}({ex})")
             return out_s
         raise Undecided(f"expression form {type(n).__name__}")
 
